@@ -4,9 +4,9 @@ from props import _lay, _fetch
 
 LEVEL = "proof"
 MODULE = "Phil.Props.C19"
-LEVEL_TEXT = 'Lean theorems about the printer model: for trees with attributes and every expert setting, width and blank prefix the filtered text is the text of the pruned tree and parses to exactly that sub-tree (filtered_text_parses_to_subtree, prune_spec, visible_scope, negative_or_absent_shows_everything), the prefix law for all trees (show_prefix family, prefix_changes_nothing_else), attribute levels only add lines (attrs_level_mono). Tied to /repo by a correspondence run of show over expert x attributes level x prefix x width; the oracle evaluates the three clauses on the implementation (filtered text re-parses to the pruned tree, dotted and braced; attributes per level; line-wise prefix law).'
-LEVEL_NOTE = 'Closed at attributes level 0; levels > 0 by monotonicity + correspondence. Prefix law on trees whose words contain no newline (physical lines inside a quoted value belong to the value).'
-TECHNIQUE = 'Lean 4 theorems on the printer model (expert gate = prune, closed filtered round trip, prefix law, level monotonicity) + differential correspondence'
+LEVEL_TEXT = 'Lean theorems about the printer model: for trees with attributes and every expert setting, width, blank prefix AND attributes level the filtered text is the text of the pruned tree and parses to exactly that sub-tree (filtered_text_parses_to_subtree(_levels), prune_spec, visible_scope, negative_or_absent_shows_everything), what each attributes level shows (level0/1/2/3_shows_*), raising the level only adds (raising_level_only_adds, higher_level_reads_back_more), the tree re-parsed from any level is the same once attributes are ignored (any_level_reparses_to_same_tree), the prefix law for all trees (show_prefix family), printing fails exactly at two characterised sites (asStr_error_iff). Tied to /repo by a correspondence run of show over expert x attributes level x prefix x width; the oracle evaluates the three clauses on the implementation.'
+LEVEL_NOTE = 'Prefix law on trees whose words contain no newline (physical lines inside a quoted value belong to the value). Deprecated definitions are hidden below level 3 by design.'
+TECHNIQUE = 'Lean 4 theorems on the printer model (expert gate = prune, closed filtered round trip at every attributes level, prefix law) + differential correspondence'
 RULE = ("layout-grammar trees with expert levels (unset, 0..4) on scopes and definitions at any depth incl. dotted scopes and "
         "disabled objects x expert_level {None,-1,0..5} x attributes_level {0..3} x prefix {'', '  ', '# ', '!x '} x widths; "
         "non-trivial = some object carries an expert level")
